@@ -29,6 +29,10 @@ STRENGTHENED = {
     "C07-m4": "missed while the harness only retried the failed call; caught after a different write on the same object follows the first failure",
     "C12-m6": "first inconclusive (interpreter gave up on None == bytes); now modelled, and reported by the adjacent-key native boundary run",
     "C15-m5": "needed the known image keccak(b'') = BLANK_HASH in Engine L's hash model to tell BLANK_HASH from BLANK_NODE_HASH",
+    "C01-m6": "found by the solver through the symbolic value-content step added to C01 (exists / in on a 32-byte symbolic value)",
+    "C16-m5": "caught after the odd-length obligation for nibbles_to_bytes was added",
+    "C17-m4": "caught after half of the partitions abort with a BaseException that is not an Exception",
+    "C10-m5": "caught by the iterator re-use obligation that had been added after the same idea could not be re-confirmed in wave 2",
     "C14-m4": "needs set;set;set with equal values; second targeted 3-operation obligation added to the quick tier",
 }
 for d in sorted(os.listdir(os.path.join(HERE, "seeded"))):
